@@ -4,6 +4,7 @@ CONSTANTS
   MaxStarts = 2
   MaxDrops = 0
   MaxForget = 1
+  MaxLinks = 0
   MaxDups = 0
   TieBreak = FALSE
   RoleByAddress = FALSE
